@@ -959,6 +959,32 @@ def c17(chk):
                         "which offered directory receives a file is random in the code and is read from the recorded walk"]
 
 
+def fixed_sig(sig):
+    return any(f.get("signature") == sig for f in vlib.known_findings().get("fixed", []))
+
+
+def c10(chk):
+    quick = chk.tier == "quick"
+    sr_var = "repaired" if fixed_sig("nospace-partial-write-duplicated") else "asfound"
+    up_var = "repaired" if fixed_sig("streamreader-error-as-eof") else "asfound"
+    common = dict(view=None, emit="Emit", properties=(), exe="faults", fs=False, chunk=12)
+    # storage side: no space left on any subset of the roots, fully or after a partial write, at every write call
+    spec_stage(chk, "nospace_2roots", "SetRetry.tla", dict(Roots={1, 2}, NChunks=2 if quick else 3, Variant=sr_var),
+               invariants=("XSuccessIsExact", "XContinuesElsewhere"), **common)
+    spec_stage(chk, "nospace_3roots", "SetRetry.tla", dict(Roots={1, 2, 3}, NChunks=2, Variant=sr_var),
+               invariants=("XSuccessIsExact", "XContinuesElsewhere"), sample=400 if quick else 6000, **common)
+    # transport side: reader error, context cancellation, broken connection at every position of uploads of several lengths
+    lens = {0, 1, 2, 3, 5} if quick else {0, 1, 2, 3, 4, 5, 6, 33, 40}
+    for rep in range(2 if quick else 6):
+        os.environ["VERIF_SEED_SHIFT"] = str(rep)
+        spec_stage(chk, "upload_%d" % rep, "Upload.tla", dict(Lens=lens, Kinds={"none", "readerr", "cancel", "cut"}, Variant=up_var),
+                   invariants=("XNoTrace", "XNeverPartial"), **common)
+    os.environ.pop("VERIF_SEED_SHIFT", None)
+    chk.assumptions += ["no-space is injected at the content file's Write (fully, or after half of the chunk was stored), not produced by a full file system",
+                        "one unit of Upload.tla is 1024 bytes (the stream chunk is 2048), probed at the boundary and one byte to either side",
+                        "an inline SetReader ignores its context: cancellation there is a successful complete write"]
+
+
 def c11(chk):
     quick = chk.tier == "quick"
     auto = {"set", "del", "emptyset"}
@@ -973,7 +999,7 @@ def c11(chk):
              mode="both", simulate=40 if quick else 800, depth=30)
 
 
-PLANS = {"C04": c04, "C16": c16, "C12": c12, "C06": c06, "C07": c07, "C08": c08, "C17": c17, "C18": c18, "C19": c19, "C20": c20, "C05": c05, "C11": c11, "C01": c01, "C02": c02, "C03": c03, "C09": c09, "C13": c13, "C14": c14}
+PLANS = {"C10": c10, "C04": c04, "C16": c16, "C12": c12, "C06": c06, "C07": c07, "C08": c08, "C17": c17, "C18": c18, "C19": c19, "C20": c20, "C05": c05, "C11": c11, "C01": c01, "C02": c02, "C03": c03, "C09": c09, "C13": c13, "C14": c14}
 
 
 def main():
